@@ -9,7 +9,7 @@ import ast
 from ..models import ModelEval, PyObj, Marker, Raised, fold
 from ..peval import Unsupported, RaisedInModel, ProgramRaised
 from ..source import AnalysisError
-from .core_models import (ArrTok, RawTok, NdTok, QtyTok, OpTok, UnitTok, core_hooks, make_vector, vector_components, VECTOR_Q,
+from .core_models import (slice_key, ArrTok, RawTok, NdTok, QtyTok, OpTok, UnitTok, core_hooks, make_vector, vector_components, VECTOR_Q,
                           DG_Q, DS_Q, ARRAY_Q)
 from .vector_rules import FORWARDED
 
@@ -99,10 +99,14 @@ def check_vector_unary_and_maps(run, tree):
              ("to", ["km"], lambda c: ("to", "L." + c, "km")),
              ("copy", [], lambda c: ("copy", "L." + c)),
              ("reshape", [3, 1], lambda c: ("reshape", "L." + c)),
-             ("__getitem__", [slice(1, 3, None)], lambda c: ("idx", "L." + c, ("slice", 1, 3, None)))]
+             ("__getitem__", [slice(1, 3, None)], lambda c: ("idx", "L." + c, slice_key((3,), slice(1, 3, None)))),
+             ("__getitem__", [slice(None, None, -1)], lambda c: ("idx", "L." + c, slice_key((3,), slice(None, None, -1)))),
+             ("__getitem__", [slice(-2, None, -1)], lambda c: ("idx", "L." + c, slice_key((3,), slice(-2, None, -1)))),
+             ("__getitem__", [slice(None, None, 2)], lambda c: ("idx", "L." + c, slice_key((3,), slice(None, None, 2)))),
+             ("__getitem__", [1], lambda c: ("idx", "L." + c, 1))]
     vi = tree.cls(VECTOR_Q)
     for name, args, want_f in cases:
-        construct = "%s.%s::every-component" % (VECTOR_Q, name)
+        construct = "%s.%s::every-component" % (VECTOR_Q, name) + ("[%s]" % (args[0],) if name == "__getitem__" else "")
         if tree.method(vi, name) is None:
             run.violated(construct, "src/osyris/core/vector.py", "%s not defined" % name, "v.%s" % name)
             continue
@@ -286,6 +290,30 @@ def check_datagroup_histories(run, tree):
         ok = keys == ["a", "b"] and items == [("a", "a"), ("b", "b")] and vals == ["a", "b"] and it == ["a", "b"] and ln == 2 and got == "a" and miss == "dflt" and has
         return ok, "keys %s items %s values %s iter %s len %s get %s/%s in %s" % (keys, items, vals, it, ln, got, miss, has)
 
+    def construct_group(*args, **kwargs):
+        ev = _ev(tree, hooks, DG_Q + ".__init__")
+        try:
+            return ev.instantiate(tree.cls(DG_Q), list(args), dict(kwargs), None)
+        except Raised as e:
+            return e
+
+    @hist("the constructor (mapping form and keyword form) applies the insertion gate to every item",
+          "Datagroup({'a': <5 rows>, 'b': <4 rows>}) is accepted: a misaligned group that fails or mixes rows at the next index/sort")
+    def h12(g, do):
+        r1 = construct_group({"a": A("a", 5), "b": A("b", 4)})
+        r2 = construct_group(a=A("a", 5), b=A("b", 4))
+        r3 = construct_group({"a": A("a", 5)}, b=A("b", 4))
+        ok = all(isinstance(r, Raised) and r.name == "ValueError" for r in (r1, r2, r3))
+        return ok, "mapping form -> %s; keyword form -> %s; mixed -> %s" % tuple(("raises " + r.name) if isinstance(r, Raised) else "accepted" for r in (r1, r2, r3))
+
+    @hist("the constructor stores and renames every item of a well-formed mapping, in order", "Datagroup({'a': x}) loses, reorders or does not rename items")
+    def h13(g, do):
+        r = construct_group({"p": A("x1", 3), "q": A("x2", 3)}, r=A("x3", 3))
+        if isinstance(r, Raised):
+            return False, "raises %s" % r.name
+        st = group_state(tree, hooks, r)
+        return list(st.items()) == [("p", ("x1", (3,), "p")), ("q", ("x2", (3,), "q")), ("r", ("x3", (3,), "r"))], "state %s" % st
+
     for label, family, fn in H:
         construct = "%s::history[%s]" % (DG_Q, label)
         g = None
@@ -351,7 +379,10 @@ def member_unit(tree, hooks, m):
 
 def check_group_indexing(run, tree):
     hooks = core_hooks()
-    idx_cases = [("integer", 2, 2), ("slice", slice(1, 3, None), ("slice", 1, 3, None)),
+    idx_cases = [("integer", 2, 2), ("slice", slice(1, 3, None), slice_key((4,), slice(1, 3, None))),
+                 ("reversing slice", slice(None, None, -1), slice_key((4,), slice(None, None, -1))),
+                 ("negative-step slice from an offset", slice(-2, None, -1), slice_key((4,), slice(-2, None, -1))),
+                 ("strided slice", slice(None, None, 2), slice_key((4,), slice(None, None, 2))),
                  ("boolean mask (ndarray)", RawTok("mask", (4,)), "mask"), ("mask given as an Array", ArrTok("amask", "dimensionless", (4,)), None),
                  ("integer index array", RawTok("perm", (4,)), "perm")]
     for label, idx, key in idx_cases:
